@@ -9,7 +9,8 @@ SCHEMA = {
                           'base_container_name': ('opt', 'str')},
     'XtcePacketDefinition': {'containers': ('smap', 'SequenceContainer'), 'root_container_name': ('opt', 'str')},
     'Parameter': {'name': 'str', 'parameter_type': ('rec', ['IntegerParameterType', 'FloatParameterType',
-                                                            'StringParameterType', 'BinaryParameterType'])},
+                                                            'StringParameterType', 'BinaryParameterType',
+                                                            'EnumeratedParameterType', 'BooleanParameterType'])},
 }
 PKT_VALUES = ('mobj', 'CCSDSPacket', {'__items__': ('odict', {'kinds': ['IntParameter', 'FloatParameter', 'StrParameter'],
                                                             'rawkinds': ['int', 'real', 'str']})})
@@ -216,6 +217,11 @@ CONTRACTS = [
         returns='none',
         # ghost event: a call decodes THIS parameter (the event log is what the walk's contract speaks about)
         ghost={'events': True, 'emits': 'self'},
+        # one variant per class of parameter type (verified in parallel; chosen at call sites by the class)
+        variants={c.replace('ParameterType', '').lower(): {
+            'select': f"cls_is(self.parameter_type, '{c}')",
+            'requires': [(f"cls_is(self.parameter_type, '{c}')", ['__proof__'])]}
+            for c in SCHEMA['Parameter']['parameter_type'][1]},
         # validity of the parameter type hanging off the parameter: the preconditions of the parse_value contracts
         requires=[('param_ok(self)', ['__proof__']), ('packet.raw_data.pos >= 0', ['__proof__'])],
         reveal=['param_ok'],
